@@ -187,7 +187,7 @@ func fromMal(v types.MalType, depth int) Node {
 	case *concurrent.Future:
 		return Node{T: "fut"}
 	case error:
-		return Node{T: "err", S: errClass(x)}
+		return errNode(x)
 	}
 	return Node{T: "other", S: fmt.Sprintf("%T", v)}
 }
@@ -199,7 +199,7 @@ func atomPeek(a *concurrent.Atom) types.MalType {
 }
 
 // sentinel classes must match exactly; any other error class only has to be an error
-var exactErrClasses = map[string]bool{"raise": true, "boom": true}
+var exactErrClasses = map[string]bool{"raise": true, "boom": true, "user": true}
 
 // EqualNode is the harness's own exact structural comparison (kinds distinguished,
 // list /= vector).  It never calls the interpreter's `=`.
@@ -226,7 +226,13 @@ func EqualNode(a, b Node) bool {
 		return a.S == b.S
 	case "err":
 		if exactErrClasses[a.S] || exactErrClasses[b.S] {
-			return a.S == b.S
+			if a.S != b.S {
+				return false
+			}
+			if a.S == "user" { // a program-made error: the message is part of the object
+				return len(a.Xs) == 1 && len(b.Xs) == 1 && a.Xs[0].S == b.Xs[0].S
+			}
+			return true
 		}
 		return true
 	case "list", "vec", "atom":
